@@ -139,6 +139,15 @@ theorem slots_restored_after_return_partial (hj : Gen.restoreJoinsLoadersOnFailu
   have := inv.1.1.cons
   exact ⟨q, w, hh, by omega⟩
 
+/-- **After a failed operation nothing is left behind** (full statement).  On the current `/repo` (fix b6c77ef: `restore` drops the
+downloads that have not started, lets the running ones finish and only then re-raises) the hypothesis of
+`slots_restored_after_return_partial` is discharged by `decide` from the regenerated shape flag; if the join is removed this
+proof stops compiling. -/
+theorem slots_restored_after_return (n jobs : Nat) (evs : List LifeEv) (σ : Life)
+    (h : run (Life.step Gen.restoreJoinsLoadersOnFailure) (Life.init n jobs) evs = some σ) (hr : σ.returned = true) :
+    σ.queued = 0 ∧ σ.waiting = 0 ∧ σ.held = 0 ∧ σ.free = n :=
+  slots_restored_after_return_partial (by decide) n jobs evs σ h hr
+
 /-- **Defect witness (current code, `joins = false`).**  One slot, three downloads: the first fails, `restore` re-raises at once,
 `asyncio.run` cancels the waiting request, that loader thread takes the next queued download and asks for a slot again, the loop
 stops: a thread is blocked in `_acquire_slot_threadsafe` and the loop is gone.  Replayed on the real code by the harness
